@@ -148,7 +148,7 @@ func isWellFormedIRI(s string) bool {
 }
 
 func isWellFormedLiteralLanguageTag(s string) bool {
-	return !strings.Contains(s, " ")
+	return len(s) > 0 && !strings.Contains(s, " ")
 }
 
 func isWellFormedLiteralBaseDirectionTag(s string) bool {
